@@ -149,25 +149,34 @@ theorem step_inv {s : S} (op : Op Rat) (h : Inv s) (hv : OpValid op) : Inv (step
     simp only [step]
     split
     · exact h
-    · rename_i u hf; exact setHPU_inv _ _ _ h (h.1 u (find?_mem hf))
+    · rename_i u hf
+      by_cases hd : u.life = .dead
+      · rw [if_pos hd]; exact h
+      · rw [if_neg hd]; exact setHPU_inv _ _ _ h (h.1 u (find?_mem hf))
   | modHP id src amt dmg =>
     simp only [step]
     split
     · exact h
     · rename_i u hf
-      exact emitHP_inv _ _ _ _ h (h.1 u (find?_mem hf)) (clamp01_range _).1 (clamp01_range _).2
+      by_cases hd : u.life = .dead
+      · rw [if_pos hd]; exact h
+      · rw [if_neg hd]
+        exact emitHP_inv _ _ _ _ h (h.1 u (find?_mem hf)) (clamp01_range _).1 (clamp01_range _).2
   | modHPRatio id src ratio typ floor dmg =>
     simp only [step]
     split
     · exact h
     · rename_i u hf
       have hu := h.1 u (find?_mem hf)
-      split_ifs
-      · exact setHPU_inv _ _ _ h hu
-      · exact emitHP_inv _ _ _ _ h hu (clamp01_range _).1 (clamp01_range _).2
-      · exact setHPU_inv _ _ _ h hu
-      · exact emitHP_inv _ _ _ _ h hu (clamp01_range _).1 (clamp01_range _).2
-      · exact h
+      by_cases hd : u.life = .dead
+      · rw [if_pos hd]; exact h
+      · rw [if_neg hd]
+        split_ifs
+        · exact setHPU_inv _ _ _ h hu
+        · exact emitHP_inv _ _ _ _ h hu (clamp01_range _).1 (clamp01_range _).2
+        · exact setHPU_inv _ _ _ h hu
+        · exact emitHP_inv _ _ _ _ h hu (clamp01_range _).1 (clamp01_range _).2
+        · exact h
   | setEnergy id src amt =>
     simp only [step]
     split
